@@ -44,7 +44,7 @@ func (s *Session) effectsOfCall(c *ssa.CallCommon, depth int) map[string]bool {
 	}
 	if con != nil {
 		for _, e := range con.Effects {
-			if !strings.HasPrefix(e, "owns ") && !strings.HasPrefix(e, "no ") {
+			if !strings.HasPrefix(e, "owns ") && !strings.HasPrefix(e, "no ") && !strings.HasPrefix(e, "lock-held at ") {
 				out[e] = true
 			}
 		}
@@ -93,6 +93,21 @@ func (s *Session) checkEffects() {
 		return
 	}
 	for _, e := range s.con.Effects {
+		if strings.HasPrefix(e, "lock-held at ") {
+			// positive form: every call of the target happens with a mutex of this function held
+			target := strings.TrimSpace(strings.TrimPrefix(e, "lock-held at "))
+			offenders := s.locksNotHeldAt(target, e)
+			name := s.obl("effect("+e+")", "")
+			vc := &VC{Obl: name, Kind: "effect", Fn: s.name, Goal: e}
+			if len(offenders) == 0 {
+				vc.Status, vc.Solver = "unsat", "trivial"
+			} else {
+				vc.SMT = "; __DECLS__\n(assert true)"
+				vc.Goal = fmt.Sprintf("%s — violated by: %s", e, strings.Join(offenders, "; "))
+			}
+			s.vcs = append(s.vcs, vc)
+			continue
+		}
 		if !strings.HasPrefix(e, "no ") {
 			continue
 		}
@@ -310,6 +325,85 @@ func (s *Session) locksHeldAt(target, clause string) []string {
 	}
 	for _, b := range s.fn.Blocks {
 		transfer(b, in[b], true)
+	}
+	if !found {
+		fatalf("%s: effect clause %q: no call of %s", s.name, clause, target)
+	}
+	return offenders
+}
+
+// locksNotHeldAt: calls of target (a callee name, or "funcvalue" for a dynamic call) that can be
+// reached with NO mutex of this function held — a forward MUST-analysis (intersection at joins) over
+// the function's own Lock/Unlock calls; a deferred Unlock releases at exit only.
+func (s *Session) locksNotHeldAt(target, clause string) []string {
+	type set map[string]bool
+	in := map[*ssa.BasicBlock]set{}
+	seenBlock := map[*ssa.BasicBlock]bool{}
+	var offenders []string
+	found := false
+	transfer := func(b *ssa.BasicBlock, held set, report bool) set {
+		out := set{}
+		for k := range held {
+			out[k] = true
+		}
+		for _, i := range b.Instrs {
+			c, ok := i.(*ssa.Call)
+			if !ok {
+				continue
+			}
+			if k, acq, rel := lockOp(&c.Call); acq {
+				out[k] = true
+			} else if rel {
+				delete(out, k)
+			}
+			if _, isBuiltin := c.Call.Value.(*ssa.Builtin); isBuiltin {
+				continue
+			}
+			if relSuffix(s.calleeName(&c.Call)) == target {
+				found = true
+				if report && len(out) == 0 {
+					offenders = append(offenders, fmt.Sprintf("%s is called at %s with no mutex held", target, s.P.pos(i.Pos())))
+				}
+			}
+		}
+		return out
+	}
+	if len(s.fn.Blocks) == 0 {
+		return nil
+	}
+	in[s.fn.Blocks[0]] = set{}
+	seenBlock[s.fn.Blocks[0]] = true
+	for changed := true; changed; {
+		changed = false
+		for _, b := range s.fn.Blocks {
+			if !seenBlock[b] {
+				continue
+			}
+			out := transfer(b, in[b], false)
+			for _, succ := range b.Succs {
+				if !seenBlock[succ] {
+					seenBlock[succ] = true
+					cp := set{}
+					for k := range out {
+						cp[k] = true
+					}
+					in[succ] = cp
+					changed = true
+					continue
+				}
+				for k := range in[succ] {
+					if !out[k] {
+						delete(in[succ], k)
+						changed = true
+					}
+				}
+			}
+		}
+	}
+	for _, b := range s.fn.Blocks {
+		if seenBlock[b] {
+			transfer(b, in[b], true)
+		}
 	}
 	if !found {
 		fatalf("%s: effect clause %q: no call of %s", s.name, clause, target)
